@@ -63,8 +63,8 @@ def flat_term(r):
         if not items:
             return "[]"
         return "(" + " ++ ".join("[" + ";".join(items[i:i + 120]) + "]" for i in range(0, len(items), 120)) + ")"
-    cfg = "mkC %s %d %s %s %d true %s" % (coq_bool(r["nil"]), r["hint"], coq_bool(r["refl"]), coq_bool(r["upd"]), r["seed"],
-                                          coq_bool(r.get("ptr", False)))
+    cfg = "mkC %s %d %s %s %d true %s %s" % (coq_bool(r["nil"]), r["hint"], coq_bool(r["refl"]), coq_bool(r["upd"]), r["seed"],
+                                             coq_bool(r.get("ptr", False)), coq_bool(CLEAR_FRESH[0]))
     idx, kf, of = {}, [], []
     for c, a, b in r["ops"]:
         if c in (0, 1, 2, 3):
@@ -84,8 +84,8 @@ def flat_term(r):
 
 def hist_term(r, res):
     # c_memclr = true: the model of the code that exists (memclr* clear memory)
-    cfg = "mkC %s %d %s %s %d true %s" % (coq_bool(r["nil"]), r["hint"], coq_bool(r["refl"]), coq_bool(r["upd"]), r["seed"],
-                                          coq_bool(r.get("ptr", False)))
+    cfg = "mkC %s %d %s %s %d true %s %s" % (coq_bool(r["nil"]), r["hint"], coq_bool(r["refl"]), coq_bool(r["upd"]), r["seed"],
+                                             coq_bool(r.get("ptr", False)), coq_bool(CLEAR_FRESH[0]))
     # long [a;b;...] literals parse super-linearly in Coq: chunks of 100 joined by ++
     def chunked(items):
         if not items:
@@ -99,6 +99,9 @@ def hist_term(r, res):
 
 
 HM = (1 << 61) - 1
+# behaviour of the working tree's mapclear, measured by the harness probe (see ctl_test.go probeClearFresh):
+# True = a fresh bucket array is taken while a range loop may be running (fixes/apply/03), False = always reused
+CLEAR_FRESH = [False]
 
 
 def trace_hash(rows):
@@ -163,6 +166,8 @@ def e2e_stage(ck):
         n = int(case[1:]) if case[1:].isdigit() else 0
         if case == "CLEAR":
             key = "mapclear-keeps-stale-overflow-links"
+        elif case == "DUPCLEAR":
+            key = "iter-duplicate-after-clear-in-loop"
         elif case.startswith("UNH"):
             # lookup / comma-ok / delete with an unhashable dynamic key must panic on nil, empty,
             # emptied and cleared maps too (maptype flag HashMightPanic, set by ssa/abi hashMightPanic)
@@ -293,6 +298,9 @@ def run(ck):
             try:
                 r = json.loads(line)
             except ValueError:
+                continue
+            if r["kind"] == "probe":
+                CLEAR_FRESH[0] = bool(r.get("clear_fresh"))
                 continue
             if r["kind"] == "hist" and r.get("nocoq"):
                 oracle_only.append(r)
@@ -425,3 +433,40 @@ def run(ck):
                       "(vm_compute, exact trace); string/float64/interface key maps run the real alg.go hash/equal functions against native Go maps; "
                       "end to end (llgo built from the working tree vs go): maps with 128..300-byte keys and values, clear-then-refill")
     return ck.finish()
+
+
+def replay(ck):
+    """bin/check C06 --replay <replay json>: re-run the recorded history on the real map code and
+    on Model.v, print both traces side by side from the first difference / the violation"""
+    rf = ck.replay_file
+    r = rf.get("replay", rf)
+    r = r.get("first", r) if isinstance(r, dict) else r
+    if "ops" not in r:
+        print("replay file has no operation history (source-level or end-to-end finding)")
+        return 1
+    mod, err = modbuild.build(ck, H)
+    if err:
+        print(err)
+        return 1
+    rp = os.path.join(ck.work, "replay_in.json")
+    json.dump(r, open(rp, "w"))
+    out = os.path.join(ck.work, "replay_out.jsonl")
+    env = vlib.goenv({"VERIF_OUT": out, "VERIF_MODE": "replay", "VERIF_REPLAY": rp, "VERIF_SEED": str(ck.seed)})
+    rc, log = vlib.sh(["go", "test", "-vet=off", "-count=1", "-run", "TestVerif", "./rt"], cwd=mod, env=env, timeout=600)
+    recs = [json.loads(l) for l in open(out)] if os.path.exists(out) else []
+    for x in recs:
+        if x["kind"] == "probe":
+            CLEAR_FRESH[0] = bool(x.get("clear_fresh"))
+    viols = [x for x in recs if x["kind"] == "viol"]
+    hist = [x for x in recs if x["kind"] == "hist"]
+    for v in viols:
+        print("VIOLATION on the real code: %s | %s (op %d)" % (v["key"], v["what"], v["at"]))
+    if hist:
+        h = hist[0]
+        bad = ck.coq_mismatches("From LLGoV Require Import C06.Model C06.Simple C06.SimpleRun C06.Grow C06.GrowRun.\nLocal Open Scope N_scope.\n",
+                                [hist_term(h, h["res"])], "run_history3", "trace_eqb", "c06_replay")
+        print("Model.v exact trace %s" % ("differs" if bad else "agrees"))
+        lo = max(0, (viols[0]["at"] if viols else len(h["ops"])) - 12)
+        for i in range(lo, len(h["ops"])):
+            print(i, h["ops"][i], h["res"][i])
+    return 1 if viols or rc != 0 else 0
